@@ -153,6 +153,35 @@ def long_lived(sid: str, variant: int) -> dict:
     return {'id': sid, 'seed': 6000 + variant, 'hosts': ['node0', 'node1'], 'steps': steps, 'fault': {}, 'no_lookup': False, 'no_drops': True}
 
 
+def relearned(sid: str, variant: int) -> dict:
+    """A service that is withdrawn and registered again a few seconds later (its new pointer reaches the browser within seconds of
+    the old one), then stays for more than one pointer TTL with nothing else happening: still reported after 80 minutes."""
+    a = {'name': 'Again-%d._http._tcp.local.' % variant, 'type': '_http._tcp.local.', 'host': 'node0', 'port': 80, 'txt': ''}
+    gap = [1000, 4000, 9000][variant % 3]
+    steps = [{'op': 'at', 't': 0}, {'op': 'bstart', 'bid': 1, 'host': 'node1', 'types': ['_http._tcp.local.']},
+             {'op': 'at', 't': 20000}, {'op': 'reg', 'svc': a},
+             {'op': 'at', 't': 24000}, {'op': 'unreg', 'svc': a},
+             {'op': 'at', 't': 24000 + gap}, {'op': 'reg', 'svc': a},
+             {'op': 'at', 't': 60000}, {'op': 'check', 'kind': 'after-registration'},
+             {'op': 'at', 't': 3500000}, {'op': 'check', 'kind': 'after-registration'},
+             {'op': 'at', 't': 4830000}, {'op': 'check', 'kind': 'after-registration'},
+             {'op': 'at', 't': 9400000}, {'op': 'check', 'kind': 'after-registration'}, {'op': 'at', 't': 9401000}]
+    return {'id': sid, 'seed': 6100 + variant, 'hosts': ['node0', 'node1'], 'steps': steps, 'fault': {}, 'no_lookup': True, 'no_drops': True}
+
+
+def short_ttl(sid: str, variant: int) -> dict:
+    """A service whose records are announced with a TTL of a few seconds (a quarter of it is shorter than the browser's query
+    spacing): the pointer is held at the 1125 s floor by its peers and refreshed like any other."""
+    a = {'name': 'Brief-%d._http._tcp.local.' % variant, 'type': '_http._tcp.local.', 'host': 'node0', 'port': 80, 'txt': '',
+         'other_ttl': [15, 30, 38][variant % 3]}
+    steps = [{'op': 'at', 't': 0}, {'op': 'bstart', 'bid': 1, 'host': 'node1', 'types': ['_http._tcp.local.']},
+             {'op': 'at', 't': 20000}, {'op': 'reg', 'svc': a},
+             {'op': 'at', 't': 80000}, {'op': 'check', 'kind': 'after-registration'},
+             {'op': 'at', 't': 400000}, {'op': 'check', 'kind': 'after-registration'},
+             {'op': 'at', 't': 1400000}, {'op': 'check', 'kind': 'after-registration'}, {'op': 'at', 't': 1401000}]
+    return {'id': sid, 'seed': 6200 + variant, 'hosts': ['node0', 'node1'], 'steps': steps, 'fault': {}, 'no_lookup': True, 'no_drops': True}
+
+
 def raising_callback(sid: str, variant: int) -> dict:
     """Three services of one host and type; a host that joins later learns them from one reply (one batch of callbacks) and one of
     its Added callbacks raises, once.  The browser must still end up reporting all of them (it may report some twice)."""
@@ -204,6 +233,7 @@ def run(ctx: Ctx) -> None:
     base += [warm_browser('c07-warm-%d' % k, k) for k in range(ctx.pick(6, 12))]
     base += [raising_callback('c07-raise-%d' % k, k) for k in range(ctx.pick(6, 9))]
     base += [long_lived('c07-long-%d' % k, k) for k in range(ctx.pick(3, 9))]
+    base += [relearned('c07-again-%d' % k, k) for k in range(3)] + [short_ttl('c07-brief-%d' % k, k) for k in range(3)]
     nb = ctx.pick(18, 108)
     base += [busy_responder('c07-busy-%d' % k, (k * 7) % 108 if not ctx.thorough else k) for k in range(nb)]
     base += [lf.gen_link(rng, 'c07-%d' % k, ctx.thorough) for k in range(ctx.pick(10, 300))]
